@@ -42,8 +42,9 @@ func runC08(c *core.Ctx) {
 	c08R5(c)
 }
 
-func c08R1(c *core.Ctx) {
-	rule := "C08.R1"
+func c08R1(c *core.Ctx) { c08R1as(c, "C08.R1") }
+
+func c08R1as(c *core.Ctx, rule string) {
 	c.Rule(rule, "the function started per accepted connection defers Conn.Close (directly, not through a closure) before any read; Close calls the builtin recover() in its own body", 4)
 	acc := fn(c, rule, "internal/broker", "Service", "onAcceptConn")
 	if acc == nil {
